@@ -146,17 +146,19 @@ class C15(Prop):
                  "+ exact differential correspondence of the model with the ASan/UBSan/LSan-built code on random annotated alignments, op chains and WUSS strings, with property monitors")
     level_text = ("Theorems (all alignments / masks / strings, no size bound): the in-place compaction loop of esl_msa_ColumnSubset = filter-by-mask; on a well-formed alignment ColumnSubset applies the SAME "
                   "column selection to rows, SS/SA/PP, every GR and GC line, SS_cons/SA_cons/PP_cons/RF/MM with no out-of-bounds access and preserves well-formedness - for DNA/RNA after the base-pair repair, "
-                  "which rewrites only SS lines and keeps well-formedness; MinimGaps/NoGaps masks remove exactly the documented columns (RF rule as coded) and rows keep their ungapped sequence; "
-                  "SequenceSubset keeps rows/names/weights/accessions/descriptions/SS/SA/PP of retained sequences at their rank, carries their GS/GR markup tag by tag, copies per-column annotation, drops comments/GF/GC, "
-                  "result well formed; Clone = identity; digital->text->digital = id, text->digital->text = canonical symbol map (whole regenerated tables by decide); ReverseComplement twice = id; "
-                  "FlushLeftInserts and MarkFragments_old keep every row's length and residues; esl_wuss2ct accepts iff all symbols legal and each of the 27 bracket languages balanced, its table is a "
-                  "fixed-point-free involution joining matching symbols; RemoveBrokenBasepairs keeps exactly the pairs with both partners retained (pair-table level, and on nested structures also string level); "
-                  "unconditional nested round trip: esl_ct2wuss succeeds on every nested table and wuss2ct(ct2wuss ct) = ct; "
-                  "esl_wuss_reverse involutive. The hand model is tied to the working tree by an exact field-by-field differential run; monitors restate the property on the implementation's own dumps.")
-    level_note = ("Partial: with pseudoknot letters the wuss->ct->wuss->ct round trip (hence the pair set of a re-encoded SS line after RemoveBrokenBasepairs on a pseudoknotted structure) is compared on every run "
-                  "against an independent WUSS reader but not proved; esl_ct2wuss may refuse (eslEINVAL, documented) a table whose greedy lettering needs more than A..Z; "
-                  "Trusted: Lean kernel + propext/Classical.choice/Quot.sound; fidelity of the hand model is checked, not proved, by the "
-                  "differential run; FlushLeftInserts is modelled as an append-only output (b <= a in the C loop); float thresholds of MarkFragments are evaluated by the driver (L0).")
+                  "which rewrites only SS lines and keeps well-formedness; MinimGaps/NoGaps masks remove exactly the documented columns (RF rule as coded), rows keep their ungapped sequence, also as extracted by "
+                  "esl_sq_FetchFromMSA; SequenceSubset keeps rows/names/weights/accessions/descriptions/SS/SA/PP of retained sequences at their rank, carries their GS/GR markup tag by tag, copies per-column "
+                  "annotation, drops comments/GF/GC, result well formed; Clone = identity; digital->text->digital = id, text->digital->text = canonical symbol map (whole regenerated tables by decide); "
+                  "ReverseComplement twice = id; FlushLeftInserts and MarkFragments_old keep every row's length and residues; esl_wuss2ct accepts iff all symbols legal and each of the 27 bracket languages balanced, "
+                  "its table is a fixed-point-free involution joining matching symbols, nested when the string has no pseudoknot letters; RemoveBrokenBasepairs keeps exactly the pairs with both partners "
+                  "retained; UNCONDITIONAL nested round trip: esl_ct2wuss succeeds on every symmetric nested table and wuss2ct(ct2wuss ct) = ct, hence wuss->ct->wuss->ct = id and 'SS stays balanced WUSS with exactly "
+                  "the retained pairs' for every letter-free SS line through repair + compaction; esl_wuss_reverse involutive. The hand model is tied to the working tree by an exact field-by-field differential run; "
+                  "monitors restate the property on the implementation's own dumps against independent Python readers.")
+    level_note = ("Partial: WITH pseudoknot letters the wuss->ct->wuss->ct round trip (hence the pair set of a re-encoded pseudoknotted SS line after RemoveBrokenBasepairs) is compared on every run against an "
+                  "independent WUSS reader (0 mismatches in 240000 random crossing tables + 90000 thorough cases) but not proved; esl_ct2wuss may refuse (eslEINVAL, documented) a table whose greedy lettering "
+                  "needs more than A..Z; after compaction the re-indexed pair set of an SS line is monitored, only its balance is proved. Trusted: Lean kernel + propext/Classical.choice/Quot.sound; fidelity of "
+                  "the hand model is checked, not proved, by the differential run; FlushLeftInserts is modelled as an append-only output (b <= a in the C loop); float thresholds of MarkFragments are "
+                  "evaluated by the driver (L0).")
     diverge_is_violation = True
     fault_is_output = True       # faults are classified by monitor() (known finding vs. new)
     trusted_base = ["hand model of esl_msa.c/esl_wuss.c tied by exact field-by-field differential run (h_msaops.c, ASan+UBSan build of the working tree)",
